@@ -23,6 +23,7 @@ struct Cfg {
   double emin = -1, emax = -1;
   bool mdl = false;
   std::string mdl_label = "e-";
+  double mdl_aperture2 = -1.0; // >= 0: rectangular direction-lock window (aperture 10 deg x this)
   int vertex = 0; // 0 none, 1 unique point, 2 exhausted after the first event
   int nev = 3;    // decays generated
   int gun_n = 0;  // > 0: the user changed the gun's multiplicity (/gun/number n) before the run
@@ -34,7 +35,7 @@ struct Cfg {
     s << "g4:" << category << ":" << nuclide << ":s" << seed;
     if (category == "dbd") s << ":m" << mode << ":l" << level;
     if (emin > 0 || emax > 0) s << ":w" << emin << "-" << emax;
-    if (mdl) s << ":mdl(" << mdl_label << ")";
+    if (mdl) s << ":mdl(" << mdl_label << (mdl_aperture2 >= 0 ? ",rect" : "") << ")";
     s << ":v" << vertex;
     if (nev != 3) s << ":n" << nev;
     if (gun_n) s << ":gun" << gun_n;
@@ -101,6 +102,7 @@ static Core core_run(const Cfg & c, int nevents, const std::set<std::string> & b
       mc.cone_phi_degree = 30.0;
       mc.cone_theta_degree = 60.0;
       mc.cone_aperture_degree = 10.0;
+      mc.cone_aperture2_degree = c.mdl_aperture2;
       op->set(mc);
       g.add_operation(op);
     }
@@ -133,6 +135,7 @@ static CI make_ci(const Cfg & c)
     ci.mdl_cone_longitude = 30.0;
     ci.mdl_cone_colatitude = 60.0;
     ci.mdl_cone_aperture = 10.0;
+    ci.mdl_cone_aperture2 = c.mdl_aperture2;
   }
   return ci;
 }
@@ -313,10 +316,11 @@ int main(int argc, char ** argv)
                 }
               }
           } else {
-            for (int m = 0; m < 2; m++) {
+            for (int m = 0; m < 3; m++) {
               Cfg c;
               c.category = cat; c.nuclide = n; c.seed = seed; c.vertex = vertex;
               c.mdl = m > 0;
+              if (m == 2) { c.mdl_aperture2 = 40.0; c.mdl_label = "gamma"; } // rectangular window with unequal half-angles
               cfgs.push_back(c);
             }
           }
